@@ -71,6 +71,14 @@ static std::string make_numtok(int64_t seed) {
         else if (style == 3 && r.chance(1, 9)) t.push_back("+-.eE"[r.below(5)]);
         else t.push_back((char)('0' + r.below(10)));
     }
+    if (r.chance(1, 5) && t.size() > 3) {
+        // nothing convertible right after the sign / at the start: the conversion function finds no number at all
+        static const char *lead[] = {"e", "E", "-", "+", ".e", "e+"};
+        size_t at = t[0] == '-' ? 1 : 0;
+        std::string l = lead[r.below(6)];
+        if (at == 0) t = "-" + t;
+        t.replace(1, l.size(), l);
+    }
     switch (r.below(4)) {
         case 0: return t;
         case 1: return "[" + t + "]";
